@@ -59,7 +59,7 @@ def _spec_to_frames(spec):
 def plan(tier, seed):
     items = [{"kind": "grid", "exhaustive": "every header-legal first byte x MASK x length class as a single frame, "
                                            "recv_frame and message-level"}]
-    n = 6000 if tier == "quick" else 120000
+    n = 6000 if tier == "quick" else 480000
     per = 250 if tier == "quick" else 2000
     for s in range(0, n, per):
         items.append({"kind": "rand", "start": s, "count": per})
@@ -250,7 +250,7 @@ def gen(rng):
 
 
 def plan(tier, seed):
-    return _plan0(tier, seed) + [{"kind": "reused", "count": 120 if tier == "quick" else 3000}]
+    return _plan0(tier, seed) + [{"kind": "reused", "count": 120 if tier == "quick" else 12000}]
 
 
 def expand(item, seed):
